@@ -51,7 +51,11 @@ def strategy(tier):
         for d in spec["inputs"] + ([spec["clim"]] if spec["clim"] else []):
             perms.append([list(draw(st.permutations(range(len(d[k]))))) for k in ("ti", "li", "si")])
         axes = draw(st.lists(st.sampled_from(gen.AXES_FOR_SCORES), min_size=2, max_size=2, unique=True))
-        return {"spec": spec, "perms": perms, "axes": axes}
+        opts = {}
+        if draw(st.sampled_from([False, False, True])):
+            from .c11 import time_opts
+            opts = draw(time_opts(spec))      # -d / -tod / -t re-derive the per-file time indices
+        return {"spec": spec, "perms": perms, "axes": axes, "opts": opts}
     return s()
 
 
@@ -67,12 +71,16 @@ def check_api(case, ctx):
     from .. import mat
     import verif.axis
     spec = case["spec"]
-    ds = model.DS(spec)
+    opts = case.get("opts") or {}
+    ds = model.DS(spec, opts)
     if ds.empty:
         ctx.label("empty")
         return
     n_in = len(spec["inputs"])
     ctx.label("inputs=%d" % n_in)
+    if opts:
+        ctx.label("time-selection")
+    extra = {"opts": opts} if opts else {}
     if _rel_order_differs(spec, ds):
         ctx.label("nontrivial")
         ctx.nt(([d["ti"] for d in spec["inputs"]], [d["li"] for d in spec["inputs"]], [d["si"] for d in spec["inputs"]],
@@ -81,14 +89,14 @@ def check_api(case, ctx):
                     "file_order": [{"ti": d["ti"], "li": d["li"], "si": d["si"]} for d in spec["inputs"]]})
     menu = gen.common_menu(spec)
     # cell: every value comes from its own coordinates
-    dscheck.check_all_axis(ctx, ID, spec, ds, menu[:8], lambda: mat.make_data(spec))
+    dscheck.check_all_axis(ctx, ID, spec, ds, menu[:8], lambda: mat.make_data(spec, opts), extra=extra)
     # permute-entries (in-memory)
     if "perms" not in case:
         case = dict(case, perms=[[list(reversed(range(len(d[k])))) for k in ("ti", "li", "si")] for d in spec["inputs"] + ([spec["clim"]] if spec.get("clim") else [])],
                     axes=[case["axis"]] if case.get("axis") not in (None, "all") else ["no", "time"])
     spec2 = permuted_spec(spec, case["perms"])
-    d1 = mat.make_data(spec)
-    d2 = mat.make_data(spec2)
+    d1 = mat.make_data(spec, opts)
+    d2 = mat.make_data(spec2, opts)
     for F in menu:
         vF = [mat.vfield(f) for f in F]
         for axis in case["axes"]:
@@ -100,13 +108,13 @@ def check_api(case, ctx):
                     ctx.evals += 1
                     if any(not cmpx.arrays_equal(x, y) for x, y in zip(a1, a2)):
                         ctx.fail("C02/permute-entries/api/" + dscheck.fields_label(F),
-                                 {"spec": spec, "perms": case["perms"], "fields": F, "axis": axis, "slice": k, "input": i},
+                                 dict(extra, spec=spec, perms=case["perms"], fields=F, axis=axis, slice=k, input=i),
                                  "re-ordering the dimension entries of the inputs changed the result")
     for F in menu[:4]:
         vF = [mat.vfield(f) for f in F]
         for i in range(n_in):
-            a1 = mat.make_data(spec).get_scores(vF, i, verif.axis.All(), None)
-            a2 = mat.make_data(spec2).get_scores(vF, i, verif.axis.All(), None)
+            a1 = mat.make_data(spec, opts).get_scores(vF, i, verif.axis.All(), None)
+            a2 = mat.make_data(spec2, opts).get_scores(vF, i, verif.axis.All(), None)
             ctx.evals += 1
             if any(not cmpx.arrays_equal(x, y) for x, y in zip(a1, a2)):
                 ctx.fail("C02/permute-entries/api-all/" + dscheck.fields_label(F),
